@@ -9,7 +9,7 @@ LEVEL = "exploration"
 RULE = ("through the real Calculate: (a) Hill 0..999, Shekel 0..999, Rastrigin(1), XSquared(1): Lipschitz-certified branch-and-bound over the whole segment with an analytic "
         "bound of the Lipschitz constant from the coefficient tables (every point of the box is covered, given that bound); (b) Grishagin 1..100 (49x49 grid in quick, 257x257 in thorough), "
         "GKLS 2..5 x 1..100, Shekel4 1..3, Rastrigin / XSquared in dimensions 2..12, StronginC3 over its feasible set: dense grid or low-discrepancy sampling + bounded local "
-        "polishing from the best cells, from the declared point and from structure-aware starts (GKLS minimisers and balls, Shekel4 centres). Checked: |f(x_decl)-f_decl| <= 1e-4, "
+        "polishing from the best cells, from the declared point and from structure-aware starts (GKLS minimisers and balls, Shekel4 centres). Checked: |f(x_decl)-f_decl| <= 1e-4 (right after construction through the `fv = Calculate(point, fv)` idiom with the holder reused, and again after the instance has been evaluated), "
         "no value below f_decl - 2e-3*max(1,|f_decl|), a point within 0.5% of the side of x_decl whose value is within that tolerance of the best value found. "
         "Non-trivial: every instance; distinct = family member.")
 ASSUMPTIONS = ["Lipschitz bounds: Hill sum 2*pi*i*sqrt(a_i^2+b_i^2); Shekel sum (3*sqrt(3)/8)*sqrt(k_i/c_i^3); Rastrigin(1) 2*2.2+20*pi; XSquared(1) 2",
@@ -62,11 +62,32 @@ def tol_of(fd):
 
 
 def check_declared_value(p, key, viol):
+    """clause 1 right after construction.  The first evaluation of the fresh instance is at the declared point and goes
+    through the library idiom `fv = problem.Calculate(point, fv)`; the holder handed back is then reused for another point
+    (as Process / the painters do) and the declared optimum is read again."""
+    from iOpt.trial import Point, FunctionValue
     xd, fd = bench.declared(p)
-    v = bench.evaluate(p, xd)
+    lo, hi = bench.bounds(p)
+    fv = FunctionValue()
+    fv = p.Calculate(Point(np.array(xd, dtype=np.double), []), fv)
+    v = float(fv.value)
     if abs(v - fd) > 1e-4:
-        viol.append({"mech": "optimum:value-at-declared-point", "key": key, "declared": fd, "calculate": float(v), "point": xd.tolist()})
+        viol.append({"mech": "optimum:value-at-declared-point", "key": key, "declared": fd, "calculate": v, "point": xd.tolist()})
+    if len(xd) == len(lo):
+        fv = p.Calculate(Point(0.5 * (lo + hi) + 0.25 * (hi - lo) * 0.37, []), fv)
+    recheck_declared(p, key, viol, None, "after the holder returned by the first evaluation was reused", first=(xd, fd))
     return xd, fd
+
+
+def recheck_declared(p, key, viol, obs, when="after the instance was used", first=None):
+    """clause 1 again, read afresh from the instance after it has been evaluated many times"""
+    xd, fd = bench.declared(p)
+    v = float(bench.evaluate(p, xd))
+    if obs is not None:
+        obs["declared_rechecked_after_use"] = obs.get("declared_rechecked_after_use", 0) + 1
+    if abs(v - fd) > 1e-4:
+        viol.append({"mech": "optimum:value-at-declared-point", "key": key, "declared": fd, "calculate": v, "point": xd.tolist(), "when": when,
+                     "declared_at_construction": None if first is None else first[1]})
 
 
 def polish(p, x0, lo, hi, fid=None):
@@ -127,6 +148,7 @@ def run_case(c):
             obs["bb_evaluations"] += ev2
             obs["max_decl_minus_true"] = max(obs.get("max_decl_minus_true", -1.0), fd - bv)
             location_ok(p, xd, fd, lo, hi, bv, viol, key, obs, extra_points=[np.array([bx])])
+            recheck_declared(p, key, viol, obs)
             obs["instances"] = obs.get("instances", 0) + 1
             keys.append("|".join(map(str, key)))
         return {"violations": viol[:8], "obs": obs, "nontrivial": True, "keys": keys,
@@ -154,6 +176,7 @@ def run_case(c):
                 viol.append({"mech": "optimum:lower-value-exists", "key": key, "declared": fd, "found": best_v, "at": best_x.tolist()})
             obs["max_decl_minus_true"] = max(obs.get("max_decl_minus_true", -1.0), fd - best_v)
             location_ok(p, xd, fd, lo, hi, best_v, viol, key, obs, extra_points=[best_x])
+            recheck_declared(p, key, viol, obs)
             obs["instances"] = obs.get("instances", 0) + 1
             keys.append("|".join(map(str, key)))
         return {"violations": viol[:8], "obs": obs, "nontrivial": True, "keys": keys,
@@ -187,6 +210,7 @@ def run_case(c):
             if best_v < fd - tol_of(fd):
                 viol.append({"mech": "optimum:lower-value-exists", "key": key, "declared": fd, "found": best_v, "at": best_x.tolist()})
             location_ok(p, xd, fd, lo, hi, best_v, viol, key, obs, extra_points=[best_x])
+            recheck_declared(p, key, viol, obs)
             obs["instances"] = obs.get("instances", 0) + 1
             keys.append("|".join(map(str, key)))
         return {"violations": viol[:8], "obs": obs, "nontrivial": True, "keys": keys,
@@ -219,6 +243,7 @@ def run_case(c):
         if best_v < fd - tol_of(fd):
             viol.append({"mech": "optimum:lower-value-exists", "key": key, "declared": fd, "found": best_v, "at": best_x.tolist()})
         location_ok(p, xd, fd, lo, hi, best_v, viol, key, obs, extra_points=[best_x])
+        recheck_declared(p, key, viol, obs)
         obs["instances"] = obs.get("instances", 0) + 1
         return {"violations": viol, "obs": obs, "nontrivial": True, "keys": ["|".join(map(str, key))],
                 "sample": {"kind": "multistart + polish", "key": key, "starts": len(starts), "best_found": best_v, "declared": fd}}
@@ -262,6 +287,7 @@ def run_case(c):
                 viol.append({"mech": "optimum:declared-point-not-near-a-global-minimiser", "key": key, "declared_point": xd.tolist(), "best_found_at": best_x.tolist(),
                              "best_value_found": best_v})
         obs["location_checked"] = 1
+        recheck_declared(p, key, viol, obs)
         obs["instances"] = 1
         obs["strongin_gap"] = fd - best_v
         return {"violations": viol, "obs": obs, "nontrivial": True, "keys": ["stronginc3"],
